@@ -129,7 +129,10 @@ def run_tlc(spec, cfg_text, workdir, env=None, timeout=3600, workers=None, extra
     e = {"JAVA_TOOL_OPTIONS": java_opts}
     if env:
         e.update(env)
-    cmd = ["timeout", str(timeout), "tlc", "-workers", str(workers or TLC_WORKERS), "-metadir", os.path.join(workdir, "states"),
+    # java is started directly (same class path as the `tlc` wrapper) so that -Xss is on the COMMAND LINE: the launcher
+    # sizes the main thread's stack from there, and TLC computes initial states (one per recorded run / model input,
+    # with deep recursive operators) on the main thread; JAVA_TOOL_OPTIONS alone only reaches the worker threads
+    cmd = ["timeout", str(timeout), "java", "-XX:+UseParallelGC", "-Xss1g", "-cp", "/opt/veriftools/tla/tla2tools.jar:/opt/veriftools/tla/CommunityModules-deps.jar", "tlc2.TLC", "-workers", str(workers or TLC_WORKERS), "-metadir", os.path.join(workdir, "states"),
            "-cleanup", "-noGenerateSpecTE", "-continue", "-config", cfg] + (extra or []) + [os.path.join(SPEC, spec)]
     t0 = time.time()
     r = sh(cmd, env=e, cwd=SPEC)
